@@ -28,7 +28,7 @@ def search(ctx, insts, timeout=3000, heap="24g"):
     if not insts:
         return {}
     path = os.path.join(ctx.dir, "inst.json")
-    json.dump(insts, open(path, "w"))
+    json.dump([dict(x, idx=k) for k, x in enumerate(insts, start=1)], open(path, "w"))
     r = tlc.run("ExecOpt", env={"INST_FILE": path}, timeout=timeout, heap=heap)
     ctx.add_run("ExecOpt", r)
     if r["timeout"] or not r["ok"]:
@@ -43,7 +43,7 @@ def search(ctx, insts, timeout=3000, heap="24g"):
 def witness(ctx, inst):
     """TLC counterexample: a complete behaviour of the executor cheaper than the claim."""
     path = os.path.join(ctx.dir, "inst1.json")
-    json.dump([inst], open(path, "w"))
+    json.dump([dict(inst, idx=1)], open(path, "w"))
     r = tlc.run("ExecOpt", cfg="ExecOptWitness.cfg", env={"INST_FILE": path}, timeout=600,
                 workers=4)
     ctx.add_run("ExecOpt(witness)", r)
@@ -102,6 +102,8 @@ def helper_values(fn_name, nmax):
 
 
 def _steps_check(ctx, pid, kind, cfgs, search_n, table_n, helper_n, deps):
+    from . import design
+    ref = design.refines(ctx, kind)
     traces = record.record_many(cfgs)
     verdicts = fw.validate(ctx, traces)
     fw.bind_totals(traces, verdicts)
@@ -173,6 +175,7 @@ def _steps_check(ctx, pid, kind, cfgs, search_n, table_n, helper_n, deps):
         "helper_values": len(helpers),
         "search_instances": len(insts), "search_box": f"all n <= {search_n}, all s <= n-1",
         "table_box": f"n <= {table_n}", "streams_skipped_not_executable": skipped,
+        "search_space_soundness": ref,
         "samples": [{"instance": insts[0]}, {"instance": insts[-1]},
                     {"claim": claims[0]}, {"claim": claims[len(claims) // 2]}] if insts else [claims[0]],
         "exhaustive": True,
@@ -268,6 +271,8 @@ def check_c07(ctx):
                     cfgs.append(mkcfg(cls, max_n=n, ram=cm, **boxes.cv(c)))
     seen = set()
     cfgs = [c for c in cfgs if not (fw.cfg_key(c) in seen or seen.add(fw.cfg_key(c)))]
+    from . import design
+    ref = design.refines(ctx, "hier")
     traces = record.record_many(cfgs)
     verdicts = fw.validate(ctx, traces)
     fw.bind_totals(traces, verdicts)
@@ -332,6 +337,7 @@ def check_c07(ctx):
                       f"DiskRevolve (one read, unbounded disk) n<={dn} cm<=2; Revolve n<={rn} cm<=3; "
                       f"{len(costs)} integer cost vectors incl. uf!=ub, wd!=rd",
         "order_claims": len(order_claims), "order_box": f"n <= {big_n}",
+        "search_space_soundness": ref,
         "streams_skipped_not_executable": skipped,
         "cost_vectors": [list(c) for c in costs],
         "samples": [{"instance": insts[0]}, {"instance": insts[len(insts) // 2]},
